@@ -127,7 +127,12 @@ func checkC03(c *Ctx) {
 			ru1.Undecided(base, c.whereI(s.call.Instr), "the callback is not a function literal")
 			continue
 		}
-		paths, err := core.EnumPaths(s.cb, core.PathOpts{})
+		paths, err := c.pathsInlined(s.cb, core.PathOpts{}, func(cl *core.Call) bool {
+			if cl.Static != nil && o.arming[cl.Static] != nil {
+				return true
+			}
+			return cl.Is(o.midPut, o.localGet) || (cl.Obj != nil && cl.Obj.Pkg() != nil && cl.Obj.Pkg().Path() == pkgEncoder)
+		}, func(g *ssa.Function) bool { return o.arming[g] != nil })
 		if err != nil {
 			ru1.Undecided(base, c.where(s.cb, s.cb), err.Error())
 			continue
@@ -135,13 +140,16 @@ func checkC03(c *Ctx) {
 		ru1.Evals(len(paths))
 		rowBad := map[string]string{}
 		rowSeen := map[string]int{}
-		var rearms, releases []*core.Call
-		var advance []*core.Call
+		type onPath struct {
+			*core.Call
+			p *core.Path
+		}
+		var rearms, releases, advance []onPath
 		for _, p := range paths {
 			if _, ok := p.Exit.(*ssa.Return); !ok {
 				continue
 			}
-			eVal, eKnown := p.CondVal("P0")
+			eVal, eKnown := p.CondVal(fmt.Sprintf("P%d", cbParamIdx(s.cb, 0)))
 			rVal, rKnown := false, false
 			for _, cd := range p.Conds {
 				if v, ok := o.isSessionRegisteredAtom(cd, p); ok {
@@ -199,9 +207,15 @@ func checkC03(c *Ctx) {
 					}
 				}
 			}
-			rearms = append(rearms, rearm...)
-			releases = append(releases, release...)
-			advance = append(advance, adv...)
+			for _, x := range rearm {
+				rearms = append(rearms, onPath{x, p})
+			}
+			for _, x := range release {
+				releases = append(releases, onPath{x, p})
+			}
+			for _, x := range adv {
+				advance = append(advance, onPath{x, p})
+			}
 		}
 		for _, row := range []string{"E=true,R=true", "E=true,R=false", "E=false,R=true", "E=false,R=false"} {
 			key := base + "|row " + row
@@ -219,10 +233,10 @@ func checkC03(c *Ctx) {
 		bad := ""
 		for _, ra := range rearms {
 			tgt := o.arming[ra.Static]
-			if tgt.pktIdx < 0 || core.Strip(ra.Common.Args[tgt.pktIdx]) != registered {
+			if tgt.pktIdx < 0 || core.Strip(ra.p.Resolve(core.Strip(ra.Common.Args[tgt.pktIdx]))) != registered {
 				bad = "the packet re-armed on expiry is not the packet that was registered (a different packet or identifier would be retransmitted)"
 			}
-			if tgt.sessIdx >= 0 && s.sessIdx >= 0 && core.Strip(ra.Common.Args[tgt.sessIdx]) != ssa.Value(s.fn.Params[s.sessIdx]) {
+			if tgt.sessIdx >= 0 && s.sessIdx >= 0 && core.Strip(ra.p.Resolve(core.Strip(ra.Common.Args[tgt.sessIdx]))) != ssa.Value(s.fn.Params[s.sessIdx]) {
 				bad = "the re-arm targets a different session"
 			}
 		}
@@ -230,10 +244,10 @@ func checkC03(c *Ctx) {
 		bad = ""
 		fromStored := func(v ssa.Value) bool {
 			// MessageId of the stored packet (2nd callback parameter) or of the registered packet
-			return stringsContains(core.Term(v), ".MessageId") && (reachesParam(v, s.cb, 1) || (s.pktIdx >= 0 && reachesParam(v, s.fn, s.pktIdx)))
+			return stringsContains(core.Term(v), ".MessageId") && (reachesParam(v, s.cb, cbParamIdx(s.cb, 1)) || (s.pktIdx >= 0 && reachesParam(v, s.fn, s.pktIdx)))
 		}
 		for _, rl := range releases {
-			if !fromStored(rl.Arg(0)) {
+			if !fromStored(rl.p.Resolve(rl.Arg(0))) {
 				bad = "the identifier released is not the MessageId of the stored/registered packet: " + short(core.Term(rl.Arg(0)), 80)
 			}
 		}
@@ -242,7 +256,7 @@ func checkC03(c *Ctx) {
 			bad = ""
 			for _, av := range advance {
 				tgt := o.arming[av.Static]
-				mid := complitField(av.Common.Args[tgt.pktIdx], "MessageId")
+				mid := complitField(av.p.Resolve(av.Common.Args[tgt.pktIdx]), "MessageId")
 				if mid == nil || !fromStored(mid) {
 					bad = "the PUBREL built on PUBREC does not take its MessageId from the stored PUBLISH"
 				}
@@ -263,11 +277,12 @@ func checkC03(c *Ctx) {
 	}
 	ru1.Check(completesQoS1 && advancesQoS2, "both acknowledged outcomes occur over the PUBLISH sites", "-", "QoS 1 completes on PUBACK, QoS 2 advances to PUBREL on PUBREC", fmt.Sprintf("over all PUBLISH registrations: completes=%v advances=%v (one of the two QoS flows is missing)", completesQoS1, advancesQoS2))
 
+	r3 := "C03-R3"
 	if tableOnly != "" {
-		return
+		r3 = tableOnly + "c"
 	}
 	// R3
-	ru3 := c.R.Rule("C03-R3", "in an arming function that reports failure, the packet is written only after the registration succeeded; in the fan-out, a failed arming releases the identifier just acquired", "E1 nil-branch guard + path rows", 4)
+	ru3 := c.R.Rule(r3, "in an arming function that reports failure, the packet is written only after the registration succeeded; in the fan-out, a failed arming releases the identifier just acquired", "E1 nil-branch guard + path rows", 4)
 	for _, s := range o.sites {
 		if s.fn.Signature.Results().Len() == 0 {
 			continue
@@ -351,6 +366,9 @@ func checkC03(c *Ctx) {
 		}
 	}
 
+	if tableOnly != "" {
+		return
+	}
 	// R4
 	ru4 := c.R.Rule("C03-R4", "the expiry sweep is wired: ack.Queue.Expire is called inside a loop that receives from a time.Ticker, in a goroutine started by the Writer.Run implementation", "E8/E2 structural", 1)
 	run := c.implOf(ru4, "wasp", "Writer", "Run")
@@ -398,6 +416,8 @@ func checkC03(c *Ctx) {
 		ru4.Check(found, "sweep goroutine of "+c.fname(run), c.where(run, run), "Expire runs on every tick of a ticker loop", detail)
 	}
 	c.ruleAckRouting("C03-R5", []string{"PubAck", "PubRec", "PubRel", "PubComp"})
+	// each recipient's delivery has its own packet object / identifier (shared with C01 / C06)
+	c.rulePerRecipientWrites("C03-R6")
 	// the in-flight table's side of the contract (also decided under C04)
 	c.ruleAckResolution("C03-T")
 }
